@@ -10,6 +10,8 @@ import Proofs.HandlerWF
 import Proofs.HandlerWire
 import Proofs.HandlerTyped
 import Proofs.Arrayterator
+import Proofs.HandlerAscii
+import Proofs.HandlerLeaves
 namespace Pydap.C06
 open Pydap Pydap.Handler
 
@@ -110,6 +112,47 @@ theorem C06_ascii_total (fmt : Int → Str) (ds cds : Dataset) (q : Str) (hds : 
   have hw := constrained_wf ds cds q hds h
   obtain ⟨t, ht⟩ := asciiData_ok fmt cds hw
   exact ⟨hw, t, ht, (C06_same_decl fmt ds q cds h).2.2 t ht⟩
+
+/-- **The ASCII response prints every value of the data response — every variable kind, the whole dataset**
+    (round 7; `C06_ascii_complete` above is the array case only).  Factorisation through the printed cells
+    (Proofs/HandlerAscii.lean): `cellsData fmt cds` is the list of printed texts of the wire values
+    (`dodsValues cds`: what the data response carries, in wire order) — pointwise and in order, each text is
+    `encode` of the value at the same position (`PrintOf`), so the two lists have the same length; `layData` lays
+    a list of cell TEXTS out following the DECLARATIONS only (`declOf`: names, shapes, column names, number of
+    records — `layData` takes no values, by its type).  On a well-formed source, for every query that yields a
+    constrained dataset: the ASCII response is the declaration, the separator and `layData` of exactly these cells,
+    and the layout consumes them to the last one.  Hence every value of the data response is printed exactly once,
+    in wire order, under the index tuple / record its position in the declaration gives it — scalars, arrays,
+    structure members (nested too), grid array and maps, sequence records — and the listing depends on the data
+    through these texts only.  ("To its printed precision": `fmt` is the opaque `'%.6g'`.) -/
+theorem C06_ascii_prints_every_value (fmt : Int → Str) (ds cds : Dataset) (q : Str) (hds : ds.WF)
+    (h : constrained ds q = .ok cds) :
+    respond fmt ds cs!"ascii" q = .ok .ascii (.complete (ddsText cds ++ dashes ++
+      (layData (cds.vars.map declOf) (cellsData fmt cds)).1)) ∧
+    (layData (cds.vars.map declOf) (cellsData fmt cds)).2 = [] ∧
+    List.Forall₂ (PrintOf fmt) (cellsData fmt cds) (dodsValues cds) ∧
+    (cellsData fmt cds).length = (dodsValues cds).length := by
+  have hw := constrained_wf ds cds q hds h
+  obtain ⟨e1, e2⟩ := asciiData_factors fmt cds hw
+  exact ⟨(C06_same_decl fmt ds q cds h).2.2 _ e1, e2, cellsData_print fmt cds, cellsData_length fmt cds⟩
+
+/-- **`dodsValues` IS what the data response carries** (round 7; closes the link the theorem above relies on): the
+    atomic values of the data handed to C05's encoder (`leaves (dataOf cds)`, wire order) are, pointwise and in order,
+    the values `dodsValues cds` (each in the vocabulary of its declared type, `xValR`); and by
+    `C06_payload_decodes_source` the payload is the reference encoding of exactly that data.  Together with
+    `C06_ascii_prints_every_value`: i-th printed cell = print of the i-th value on the wire. -/
+theorem C06_data_response_carries_wire_values (ds cds : Dataset) (q : Str) (hds : ds.WF)
+    (h : constrained ds q = .ok cds) :
+    List.Forall₂ CarriedAs (leaves (dataOf cds)) (dodsValues cds) ∧
+    payload cds = Xdr.encImpl (tmplOf cds) (dataOf cds) :=
+  ⟨leaves_dataOf cds (constrained_wf ds cds q hds h), rfl⟩
+
+/-- … and two constrained datasets with the same declarations whose wire values print alike have the same listing:
+    nothing but the declaration and the printed wire values reaches the ASCII data section -/
+theorem C06_ascii_depends_on_printed_values_only (fmt : Int → Str) (cds cds' : Dataset) (h : cds.WF) (h' : cds'.WF)
+    (hd : cds.vars.map declOf = cds'.vars.map declOf) (hc : cellsData fmt cds = cellsData fmt cds') :
+    asciiData fmt cds = asciiData fmt cds' :=
+  asciiData_congr fmt cds cds' h h' hd hc
 
 /-- every array of the constrained dataset carries exactly as many values as the product of the
     shape its declaration prints — the shape of the DDS, of the data response and the number of
@@ -435,6 +478,14 @@ example : (constrained dsB cs!"st.p[0:1][1],g[1:2],s.j,s[0:1]&s.i>1").map Datase
       .grid cs!"g" { name := cs!"v", ty := cs!"Int32", shape := [2], dims := [cs!"x"], data := [8, 9] }
         [{ name := cs!"x", ty := cs!"Int32", shape := [2], dims := [cs!"x"], data := [10, 20] }],
       .seq cs!"s" [(cs!"j", cs!"Int32")] [[6], [7]]]⟩ := by
+  decide +kernel
+
+/-- non-vacuity of `C06_ascii_prints_every_value` on `dsB` (structure member sliced, grid sliced, sequence projected
+    and filtered): 2 + 2 + 2 + 2 cells for 8 wire values, laid out to the listing, none left -/
+example : (constrained dsB cs!"st.p[0:1][1],g[1:2],s.j,s[0:1]&s.i>1").toOption.map
+      (fun c => (cellsData intText c, dodsValues c, (layData (c.vars.map declOf) (cellsData intText c))))
+    = some ([cs!"2", cs!"4", cs!"8", cs!"9", cs!"10", cs!"20", cs!"6", cs!"7"], [2, 4, 8, 9, 10, 20, 6, 7],
+        (cs!"st.p\n[0][0] 2\n[1][0] 4\n\n\ng.v\n[0] 8\n[1] 9\n\ng.x\n[0] 10\n[1] 20\n\n\ns.j\n6\n7\n\n", [])) := by
   decide +kernel
 
 /-- strings and a Structure nested in a Structure: a String array, a String scalar, a nested
